@@ -47,6 +47,21 @@ def burst_bytes(b):
                     ends.append((len(out), {"name": "binary", "data": p}))
     elif kind == "few_large":
         for i, size in enumerate(b["sizes"]):
+            if b.get("text"):
+                # text made of multi-byte characters (after 0-3 ASCII bytes, so that read, record and fragment
+                # boundaries fall at every offset inside a character): 2-, 3- and 4-byte sequences
+                ch = ["\u00e9", "\u20ac", "\U0001f600"][(b["text"] + i) % 3]
+                pad = "x" * (b["text"] % 4)
+                width = len(ch.encode("utf-8"))
+                text = pad + ch * max(0, (size - len(pad)) // width)
+                p = text.encode("utf-8")
+                if b.get("fragment"):
+                    half = len(p) // 2 + (b["text"] % 3)     # the fragment boundary may split a character too
+                    out += B(wire.TEXT, p[:half], fin=0) + B(wire.CONT, p[half:])
+                else:
+                    out += B(wire.TEXT, p)
+                ends.append((len(out), {"name": "text", "text": text}))
+                continue
             p = bytes([65 + i % 26]) * size
             if b.get("fragment"):
                 half = size // 2
@@ -75,7 +90,8 @@ class C18(Prop):
     id = "C18"
     level = "exploration"
     rule = ("virtual clock, poll = 60 s: arrival patterns = list of (time, burst); a burst is up to 300 small frames (with Pings "
-            "inside) or a few large ones with sizes around the 16 KiB TLS record and the 64 KiB receive buffer (x1, x2, x3.5, +-1), "
+            "inside) or a few large ones (binary, or text of 2-/3-/4-byte characters shifted so that read, record and fragment "
+            "boundaries fall inside characters) with sizes around the 16 KiB TLS record and the 64 KiB receive buffer (x1, x2, x3.5, +-1), "
             "optionally fragmented; transport plain or a record-oriented TLS model (record size drawn <= 16384; decrypted "
             "remainder visible only through pending(), the descriptor readable only while undecrypted records wait). Oracle: the "
             "virtual time at which each message event is yielded, and at which each automatic Pong is written, equals the time "
@@ -99,7 +115,9 @@ class C18(Prop):
         large = st.fixed_dictionaries({
             "kind": st.just("few_large"),
             "sizes": st.lists(st.one_of(st.sampled_from(SIZES), st.integers(1, 70000)), min_size=1, max_size=3),
-            "fragment": st.booleans(), "exact": st.one_of(st.none(), st.none(), st.integers(1, 2))})
+            "fragment": st.booleans(), "exact": st.one_of(st.none(), st.none(), st.integers(1, 2)),
+            # 0 = binary; n > 0 = text of multi-byte characters (n picks the character width and the ASCII padding)
+            "text": st.sampled_from([0, 0, 1, 2, 3, 4, 5, 6, 7, 8, 9, 10, 11])})
         burst = st.one_of(small, large)
         return st.fixed_dictionaries({
             "tls": st.booleans(),
@@ -112,6 +130,8 @@ class C18(Prop):
             "prelude": gen.prelude(),
             # a second live connection in the same process (interleaved with this one, or blocked in a send)
             "companion": gen.companion(),
+            # calls with unsendable arguments that the application tries (and whose error it catches) on the way
+            "noise_calls": gen.noise_calls(),
             # connect() options that must not matter here
             "copts_noise": gen.copts_noise(("poll", "ping_timeout", "close_timeout",)),
         })
@@ -125,6 +145,15 @@ class C18(Prop):
                             yield {"tls": bool(tls), "eager": tls == "eager", "record": record, "with_reply": False, "chunk": None,
                                    "bursts": [[4, {"kind": "few_large", "sizes": [size, 10], "fragment": fragment}],
                                               [4, {"kind": "many_small", "n": 120, "rep": 10, "ping_every": 7}]]}
+            # large TEXT messages of 2-, 3- and 4-byte characters, shifted by 0-3 ASCII bytes: every read / record /
+            # fragment boundary offset inside a character
+            for tls in (False, True):
+                for size in (70000, 140000):
+                    for text in range(1, 13):
+                        for fragment in (False, True):
+                            yield {"tls": tls, "eager": False, "record": 16384, "with_reply": False, "chunk": None,
+                                   "bursts": [[4, {"kind": "few_large", "sizes": [size, 40], "fragment": fragment, "text": text}],
+                                              [4, {"kind": "many_small", "n": 3, "rep": 2, "ping_every": 2}]]}
             # bursts that are exactly 1x / 2x / 3x the receive buffer, plain and TLS
             for tls in (False, True, "eager"):
                 for k in (1, 2, 3):
